@@ -13,7 +13,7 @@ PrB == [price |-> 3, pt |-> <<>>, pv |-> <<>>]
 C_InitBinds == {[s |-> "s1", p |-> "p1", o |-> "o1", dep |-> 8, pr |-> PrA, qos |-> 1, avail |-> TRUE],
                 [s |-> "s1", p |-> "p2", o |-> "o1", dep |-> 8, pr |-> PrB, qos |-> 2, avail |-> TRUE]}
 C_InitBal == [a \in C_Accts |-> IF a = "c1" THEN 7 ELSE 0]
-C_Params == [maxTimeout |-> 3, multiple |-> 2, minDeposit |-> 4, tax |-> 1, slash |-> 5, refundDelay |-> 2]
+C_Params == [maxTimeout |-> 3, multiple |-> 2, minDeposit |-> 4, tax |-> 1, slash |-> 5, refundDelay |-> 2, lax |-> FALSE]
 C_Prs == {PrA}
 C_ProvSeqs == {<<"p1">>, <<"p1", "p2">>}
 C_ModSvc == <<>>
